@@ -10,7 +10,7 @@
    graph, and the model takes no action otherwise): Reshape and chain nodes have exactly one output, chain nodes
    have no nested graphs, and src, T1's output, the chain outputs and T2's output are pairwise distinct names. *)
 From Coq Require Import ZArith String List Bool Arith Lia.
-From J2O Require Import PyLib Tensor Graph Redirect Reshape ElemCommute ChainSim C02Opt.
+From J2O Require Import PyLib Tensor Graph Redirect Reshape ElemCommute ChainSim C02Opt ElemSem.
 From J2OGen Require Import GenOpt.
 Import ListNotations.
 
@@ -204,7 +204,7 @@ Proof.
   destruct Hin as [<-|Hin].
   - exists prev, y, rest. rewrite Hoy. repeat split; auto.
   - destruct (IH y n Hr Hin) as (p & y' & rest' & Hp & H1 & H2 & H3 & H4 & H5).
-    exists p, y', rest'. rewrite Hoy. repeat split; auto. destruct Hp as [<-|Hp]; [right; now left | right; now right].
+    exists p, y', rest'. rewrite Hoy. repeat split; auto. all: try (destruct Hp as [<-|Hp]; [right; now left | right; now right]).
 Qed.
 
 Lemma chain_facts_unobs g : forall chain prev y, chain_facts g prev chain -> In y (map out_of chain) -> observed g y = false.
@@ -214,6 +214,9 @@ Proof.
   destruct Hin as [<-|Hin]; [unfold out_of; now rewrite Ho | eauto].
 Qed.
 
+Lemma last_indep {B} (l : list B) (d d' : B) : l <> [] -> last l d = last l d'.
+Proof. induction l as [|x r IH]; intro H; [congruence|]. destruct r as [|y r']; [reflexivity|]. apply IH. discriminate. Qed.
+
 Lemma chain_facts_last g : forall chain prev, chain_facts g prev chain -> chain <> [] ->
   n_outs (last chain (mkNode "" [] [] [] [])) = [last (map out_of chain) prev].
 Proof.
@@ -222,7 +225,7 @@ Proof.
   - simpl. unfold out_of. now rewrite Ho.
   - change (last (m :: m2 :: r2) _) with (last (m2 :: r2) (mkNode "" [] [] [] [])).
     change (last (map out_of (m :: m2 :: r2)) prev) with (last (map out_of (m2 :: r2)) prev).
-    rewrite (IH y Hr) by discriminate. f_equal. simpl. destruct (map out_of r2); reflexivity.
+    rewrite (IH y Hr) by discriminate. f_equal. apply last_indep. discriminate.
 Qed.
 
 Lemma producer_spec ns v p : producer ns v = Some p -> In p ns /\ In v (n_outs p).
@@ -240,12 +243,11 @@ Proof.
   destruct (is_allowed p) eqn:Ea.
   - destruct (n_ins p) as [|x rest]; [discriminate|].
     destruct (IH _ _ _ _ H) as (new & -> & H1 & H2 & H3 & H4).
-    exists (new ++ [p]). rewrite <- app_assoc. repeat split; auto.
-    + apply in_app_or in H0 as [H0|[<-|[]]]; [now apply H3 | exact Hp].
-    + apply in_app_or in H0 as [H0|[<-|[]]]; [now apply H3 | exact Ea].
+    exists (new ++ [p]). rewrite <- app_assoc. split; [reflexivity|]. split; [exact H1|]. split; [exact H2|]. split.
+    + intros n Hn. apply in_app_or in Hn as [Hn|[<-|[]]]; [now apply H3 | split; assumption].
     + now rewrite last_last.
   - destruct (is_reshape p) eqn:Er; [|discriminate]. injection H as <- <-.
-    exists []. repeat split; auto; intros n [].
+    exists []. split; [reflexivity|]. split; [exact Hp|]. split; [exact Er|]. split; [intros n []|exact Hv].
 Qed.
 
 Record action_facts (g : pgraph) (a : action) (T1 T2 : node) : Prop := {
@@ -267,7 +269,7 @@ Record action_facts (g : pgraph) (a : action) (T1 T2 : node) : Prop := {
 Lemma decide_facts g T2 a : In T2 (pg_nodes g) -> decide g T2 = Some a -> exists T1, action_facts g a T1 T2.
 Proof.
   intros HT2 H. unfold decide in H.
-  destruct (is_reshape T2) eqn:Er2; [|discriminate]. simpl in H.
+  destruct (is_reshape T2) eqn:Er2; [|discriminate]. cbn [negb] in H.
   destruct (n_ins T2) as [|v rest2] eqn:Hi2; [discriminate|].
   destruct (n_outs T2) as [|b [|]] eqn:Ho2; try discriminate.
   destruct (walk (pg_nodes g) 8 v []) as [[T1 chain]|] eqn:Ew; [|discriminate].
@@ -284,17 +286,644 @@ Proof.
   - eauto.
   - unfold is_reshape in Er2. now apply String.eqb_eq in Er2.
   - (* T2's data input is the last dirty name *)
-    exists rest2. f_equal. unfold dirty, chain_outs. cbn [ac_t1 ac_chain].
+    exists rest2. rewrite Hi2. f_equal. unfold dirty, chain_outs. cbn [ac_t1 ac_chain].
     destruct chain as [|c0 cr] eqn:Ech.
     + simpl in Hlink. rewrite Ho1 in Hlink. destruct Hlink as [<-|[]]. reflexivity.
     + rewrite <- Ech in *. assert (Hne : chain <> []) by (rewrite Ech; discriminate).
       rewrite (last_indep _ T1 (mkNode "" [] [] [] [])) in Hlink by exact Hne.
       rewrite (chain_facts_last g chain a0 Hcf Hne) in Hlink. destruct Hlink as [<-|[]].
-      rewrite Ech. simpl. destruct (map out_of cr); reflexivity.
+      rewrite Ech. change (last (map out_of (c0 :: cr)) a0 = last (a0 :: map out_of (c0 :: cr)) 0).
+      change (last (a0 :: map out_of (c0 :: cr)) 0) with (last (map out_of (c0 :: cr)) 0). apply last_indep. discriminate.
   - intros x [<-|Hx]; [exact H2|]. eapply chain_facts_unobs; eauto.
   - intros x m Hx Hm Hin. rewrite forallb_forall in H4. specialize (H4 x Hx). rewrite forallb_forall in H4. apply H4.
     unfold consumers. apply filter_In. split; auto. apply existsb_exists. exists x. split; auto. apply Nat.eqb_refl.
   - now apply nodupb_NoDup.
 Qed.
 
-Lemma last_indep_dummy : True. Proof. exact I. Qed.
+(* ================================================================ the rewrite as ONE renaming + a filter *)
+Definition rho (a : action) (x : name) : name :=
+  if Nat.eqb x (ac_t2 a) then new_src a else if Nat.eqb x (ac_t1 a) then ac_src a else x.
+Definition keep (a : action) (n : node) : bool := negb (node_is (ac_t1 a) n) && negb (node_is (ac_t2 a) n).
+
+Lemma remove_first_map (k : node -> bool) (f : node -> node) ns :
+  (forall n, k (f n) = k n) -> remove_first k (map f ns) = map f (remove_first k ns).
+Proof. intro H. induction ns as [|n r IH]; simpl; auto. rewrite H. destruct (k n); simpl; congruence. Qed.
+
+Lemma filter_filter {B} (p q : B -> bool) l : filter q (filter p l) = filter (fun x => p x && q x) l.
+Proof. induction l as [|x r IH]; simpl; auto. destruct (p x); simpl; [destruct (q x); simpl; congruence | exact IH]. Qed.
+
+Lemma subst_map_ext r1 r2 n : (forall x, In x (n_uses n) -> r1 x = r2 x) -> subst_map r1 n = subst_map r2 n.
+Proof.
+  intro H. unfold subst_map. f_equal; apply map_ext_in; intros x Hx; apply H; unfold n_uses; apply in_or_app; auto.
+Qed.
+
+Lemma observed_false g v : observed g v = false ->
+  ~ In v (pg_outputs g) /\ forall m, In m (pg_nodes g) -> ~ In v (n_caps m).
+Proof.
+  unfold observed. intro H. apply orb_false_iff in H as [H1 H2]. split.
+  - intro Hin. assert (existsb (Nat.eqb v) (pg_outputs g) = true) by (apply existsb_exists; exists v; split; auto; apply Nat.eqb_refl). congruence.
+  - intros m Hm Hin.
+    assert (existsb (fun m => existsb (Nat.eqb v) (n_caps m)) (pg_nodes g) = true).
+    { apply existsb_exists. exists m. split; auto. apply existsb_exists. exists v. split; auto. apply Nat.eqb_refl. }
+    congruence.
+Qed.
+
+Lemma in_members_spec outs m : in_members outs m = true -> exists y, n_outs m = [y] /\ In y outs.
+Proof.
+  unfold in_members. destruct (n_outs m) as [|y [|]]; try discriminate. intro H.
+  apply existsb_exists in H as (z & Hz & E). apply Nat.eqb_eq in E. subst. eauto.
+Qed.
+
+Lemma node_is_true o m : n_outs m = [o] -> node_is o m = true.
+Proof. unfold node_is. intros ->. apply Nat.eqb_refl. Qed.
+
+Section Facts.
+  Variables (g : pgraph) (a : action) (T1 T2 : node).
+  Hypothesis Hnd : NoDup (defs (pg_nodes g)).
+  Hypothesis Haf : action_facts g a T1 T2.
+
+  Lemma src_not_dirty : ~ In (ac_src a) (dirty a ++ [ac_t2 a]).
+  Proof. pose proof (af_nodup _ _ _ _ Haf) as H. now apply NoDup_cons_iff in H as [H _]. Qed.
+  Lemma t2_not_dirty : ~ In (ac_t2 a) (dirty a).
+  Proof.
+    pose proof (af_nodup _ _ _ _ Haf) as H. apply NoDup_cons_iff in H as [_ H].
+    intro Hin. eapply (NoDup_app_disj (dirty a) [ac_t2 a]); eauto. now left.
+  Qed.
+  Lemma t1_dirty : In (ac_t1 a) (dirty a). Proof. now left. Qed.
+  Lemma dirty_nodup : NoDup (dirty a).
+  Proof. pose proof (af_nodup _ _ _ _ Haf) as H. apply NoDup_cons_iff in H as [_ H]. now apply NoDup_app_l in H. Qed.
+  Lemma t1_not_chain : ~ In (ac_t1 a) (chain_outs a).
+  Proof. pose proof dirty_nodup as H. unfold dirty in H. now apply NoDup_cons_iff in H as [H _]. Qed.
+  Lemma t1_ne_t2 : ac_t1 a <> ac_t2 a.
+  Proof. intro E. apply t2_not_dirty. rewrite <- E. apply t1_dirty. Qed.
+  Lemma src_ne_t2 : ac_src a <> ac_t2 a.
+  Proof. intro E. apply src_not_dirty. apply in_or_app. right. left. now symmetry. Qed.
+  Lemma src_ne_t1 : ac_src a <> ac_t1 a.
+  Proof. intro E. apply src_not_dirty. apply in_or_app. left. left. now symmetry. Qed.
+
+  Lemma new_src_spec : new_src a = ac_src a /\ ac_chain a = [] \/ In (new_src a) (chain_outs a).
+  Proof.
+    unfold new_src, chain_outs. destruct (ac_chain a) as [|c r]; [left; auto|]. right.
+    destruct (exists_last (l := map out_of (c :: r))) as (l' & x & E); [discriminate|]. rewrite E, last_last.
+    apply in_or_app. right. now left.
+  Qed.
+
+  Lemma rho_chain_out y : In y (chain_outs a) -> rho a y = y.
+  Proof.
+    intro Hy. unfold rho.
+    destruct (Nat.eqb_spec y (ac_t2 a)) as [E|_]; [exfalso; apply t2_not_dirty; rewrite <- E; now right|].
+    destruct (Nat.eqb_spec y (ac_t1 a)) as [E|_]; [exfalso; apply t1_not_chain; now rewrite <- E | reflexivity].
+  Qed.
+  Lemma rho_t1 : rho a (ac_t1 a) = ac_src a.
+  Proof.
+    unfold rho. destruct (Nat.eqb_spec (ac_t1 a) (ac_t2 a)) as [E|_]; [exfalso; now apply t1_ne_t2|]. now rewrite Nat.eqb_refl.
+  Qed.
+  Lemma rho_t2 : rho a (ac_t2 a) = new_src a.
+  Proof. unfold rho. now rewrite Nat.eqb_refl. Qed.
+  Lemma rho_other x : x <> ac_t1 a -> x <> ac_t2 a -> rho a x = x.
+  Proof. intros H1 H2. unfold rho. destruct (Nat.eqb_spec x (ac_t2 a)); [contradiction|]. destruct (Nat.eqb_spec x (ac_t1 a)); [contradiction | reflexivity]. Qed.
+
+  Lemma last_dirty_eq : ac_chain a <> [] -> last (dirty a) 0 = new_src a.
+  Proof.
+    unfold dirty, new_src, chain_outs. destruct (ac_chain a) as [|c r]; [congruence|]. intros _.
+    change (last (ac_t1 a :: map out_of (c :: r)) 0) with (last (map out_of (c :: r)) 0). apply last_indep. discriminate.
+  Qed.
+
+  Lemma last_dirty : rho a (last (dirty a) 0) = new_src a.
+  Proof.
+    destruct new_src_spec as [[Hn Hc]|Hin].
+    - unfold dirty, chain_outs. rewrite Hc. simpl. rewrite rho_t1. now symmetry.
+    - assert (Hne : ac_chain a <> []) by (intro E; unfold chain_outs in Hin; rewrite E in Hin; contradiction).
+      rewrite (last_dirty_eq Hne). now apply rho_chain_out.
+  Qed.
+
+  Lemma last_dirty_in : In (last (dirty a) 0) (dirty a).
+  Proof.
+    unfold dirty. destruct (exists_last (l := ac_t1 a :: chain_outs a)) as (l' & x & E); [discriminate|].
+    rewrite E, last_last. apply in_or_app. right. now left.
+  Qed.
+
+  (* the members of the chain are exactly the nodes whose single output is a chain output *)
+  Lemma chain_member n : In n (pg_nodes g) -> in_members (chain_outs a) n = true -> In n (ac_chain a).
+  Proof.
+    intros Hn Hm. apply in_members_spec in Hm as (y & Ho & Hy). unfold chain_outs in Hy.
+    apply in_map_iff in Hy as (c & Hc & Hcin).
+    destruct (chain_facts_in g _ _ c (af_chain _ _ _ _ Haf) Hcin) as (_ & y' & _ & _ & Hoc & _).
+    assert (y' = y) by (unfold out_of in Hc; rewrite Hoc in Hc; auto). subst y'.
+    assert (n = c); [|now subst].
+    eapply (defs_unique (pg_nodes g)); eauto.
+    - now apply (af_chain_in _ _ _ _ Haf).
+    - rewrite Ho. now left.
+    - rewrite Hoc. now left.
+  Qed.
+
+  Lemma T1_unique n : In n (pg_nodes g) -> In (ac_t1 a) (n_outs n) -> n = T1.
+  Proof.
+    intros Hn Hin. eapply (defs_unique (pg_nodes g)); eauto; [apply (af_T1_in _ _ _ _ Haf) | rewrite (af_T1_outs _ _ _ _ Haf); now left].
+  Qed.
+  Lemma T2_unique n : In n (pg_nodes g) -> In (ac_t2 a) (n_outs n) -> n = T2.
+  Proof.
+    intros Hn Hin. eapply (defs_unique (pg_nodes g)); eauto; [apply (af_T2_in _ _ _ _ Haf) | rewrite (af_T2_outs _ _ _ _ Haf); now left].
+  Qed.
+
+  (* a kept node outside the chain reads no dirty name *)
+  Lemma kept_clean n x : In n (pg_nodes g) -> keep a n = true -> in_members (chain_outs a) n = false ->
+    In x (dirty a) -> ~ In x (n_uses n).
+  Proof.
+    intros Hn Hk Hnm Hx Hin. unfold n_uses in Hin. apply in_app_or in Hin as [Hi|Hc].
+    - pose proof (af_cons _ _ _ _ Haf x n Hx Hn Hi) as Hm. apply in_members_spec in Hm as (y & Ho & Hy).
+      apply in_app_or in Hy as [Hy|[<-|[]]].
+      + assert (in_members (chain_outs a) n = true); [|congruence].
+        unfold in_members. rewrite Ho. apply existsb_exists. exists y. split; auto. apply Nat.eqb_refl.
+      + unfold keep in Hk. rewrite (node_is_true _ _ Ho) in Hk. now rewrite andb_false_r in Hk.
+    - destruct (observed_false _ _ (af_unobs _ _ _ _ Haf x Hx)) as [_ H]. exact (H n Hn Hc).
+  Qed.
+
+  Lemma chain_nonempty_member c : In c (ac_chain a) -> in_members (chain_outs a) c = true /\ keep a c = true.
+  Proof.
+    intro Hc. destruct (chain_facts_in g _ _ c (af_chain _ _ _ _ Haf) Hc) as (_ & y & _ & _ & Ho & Hy & _).
+    split.
+    - unfold in_members. rewrite Ho. apply existsb_exists. exists y. split; auto. apply Nat.eqb_refl.
+    - unfold keep, node_is. rewrite Ho.
+      destruct (Nat.eqb_spec y (ac_t1 a)) as [E|_].
+      { exfalso. apply t1_not_chain. now rewrite <- E. }
+      destruct (Nat.eqb_spec y (ac_t2 a)) as [E|_]; auto.
+      exfalso. apply t2_not_dirty. rewrite <- E. now right.
+  Qed.
+
+  Theorem apply_action_graph :
+    pg_graph (apply_action g a) =
+    mkGraph (map (subst_map (rho a)) (filter (keep a) (pg_nodes g))) (map (rho a) (pg_outputs g)).
+  Proof.
+    unfold apply_action, pg_graph. cbn [pg_nodes pg_outputs].
+    set (f := fun n => subst_node (ac_t2 a) (new_src a) (match ac_chain a with [] => n | _ => subst_node (ac_t1 a) (ac_src a) n end)).
+    assert (Hnodes : g_nodes (replace_all_uses (ac_t2 a) (new_src a)
+               match ac_chain a with [] => mkGraph (pg_nodes g) (pg_outputs g)
+                                | _ => replace_all_uses (ac_t1 a) (ac_src a) (mkGraph (pg_nodes g) (pg_outputs g)) end)
+            = map f (pg_nodes g)).
+    { unfold f. destruct (ac_chain a); simpl; [reflexivity | now rewrite map_map]. }
+    rewrite Hnodes.
+    assert (Hk : forall o n, node_is o (f n) = node_is o n) by (intros o n; unfold f; destruct (ac_chain a); reflexivity).
+    rewrite (remove_first_map _ f) by (intro; apply Hk). rewrite (remove_first_map _ f) by (intro; apply Hk).
+    rewrite (remove_first_filter (ac_t1 a)) by exact Hnd.
+    rewrite (remove_first_filter (ac_t2 a)).
+    2:{ rewrite <- (remove_first_filter (ac_t1 a)) by exact Hnd. now apply NoDup_defs_remove_first. }
+    rewrite filter_filter. fold (keep a). f_equal.
+    - apply map_ext_in. intros n Hn. apply filter_In in Hn as [Hn Hkn]. unfold f.
+      destruct (ac_chain a) as [|c r] eqn:Ec.
+      + rewrite subst_node_map. apply subst_map_ext. intros x Hx. unfold rn, rho.
+        destruct (Nat.eqb_spec x (ac_t2 a)); auto.
+        destruct (Nat.eqb_spec x (ac_t1 a)) as [->|]; auto.
+        exfalso. refine (kept_clean n (ac_t1 a) Hn Hkn _ t1_dirty Hx).
+        unfold in_members, chain_outs. rewrite Ec. simpl. destruct (n_outs n) as [|? [|]]; reflexivity.
+      + rewrite !subst_node_map, subst_map_comp. apply subst_map_ext. intros x _. unfold rn, rho.
+        destruct (Nat.eqb_spec x (ac_t1 a)) as [->|Hne].
+        * destruct (Nat.eqb_spec (ac_src a) (ac_t2 a)) as [E|_]; [exfalso; now apply src_ne_t2|].
+          destruct (Nat.eqb_spec (ac_t1 a) (ac_t2 a)) as [E|_]; [exfalso; now apply t1_ne_t2 | reflexivity].
+        * reflexivity.
+    - destruct (ac_chain a) as [|c r] eqn:Ec; simpl.
+      + apply map_ext_in. intros x Hx. unfold rn, rho. destruct (Nat.eqb_spec x (ac_t2 a)); auto.
+        destruct (Nat.eqb_spec x (ac_t1 a)) as [->|]; auto.
+        exfalso. destruct (observed_false _ _ (af_unobs _ _ _ _ Haf _ t1_dirty)) as [H _]. contradiction.
+      + rewrite map_map. apply map_ext. intro x. unfold rn, rho.
+        destruct (Nat.eqb_spec x (ac_t1 a)) as [->|Hne].
+        * destruct (Nat.eqb_spec (ac_src a) (ac_t2 a)) as [E|_]; [exfalso; now apply src_ne_t2|].
+          destruct (Nat.eqb_spec (ac_t1 a) (ac_t2 a)) as [E|_]; [exfalso; now apply t1_ne_t2 | reflexivity].
+        * reflexivity.
+  Qed.
+End Facts.
+
+(* ================================================================ soundness *)
+Definition dim_ok (sigma : string -> nat) (d : dim) (n : nat) : Prop :=
+  match d with DInt k => n = k | DSym s => n = sigma s | DUnk => True end.
+
+Lemma compat_shapes sigma : forall ds1 ds2 s1 s2, list_eqb dim_compat ds1 ds2 = true ->
+  Forall2 (dim_ok sigma) ds1 s1 -> Forall2 (dim_ok sigma) ds2 s2 -> s1 = s2.
+Proof.
+  induction ds1 as [|d1 r1 IH]; intros [|d2 r2] s1 s2 H F1 F2; simpl in H; try discriminate.
+  - inversion F1; inversion F2; reflexivity.
+  - apply andb_prop in H as [Hd Hr]. inversion F1 as [|? n1 ? t1 Hd1 Ht1]; subst. inversion F2 as [|? n2 ? t2 Hd2 Ht2]; subst.
+    f_equal; [|eapply IH; eauto].
+    destruct d1, d2; simpl in *; try discriminate.
+    + apply Nat.eqb_eq in Hd. congruence.
+    + apply String.eqb_eq in Hd. congruence.
+Qed.
+
+Section Sound.
+  Variable A : Type.
+  Notation V := (tensor A).
+  Variable sem : string -> list nat -> list V -> option (list V).
+  Hypothesis sem_proper : forall op ats vs vs' o, Forall2 teq vs vs' -> sem op ats vs = Some o ->
+    exists o', sem op ats vs' = Some o' /\ Forall2 teq o o'.
+  Hypothesis Hreshape : sem_reshape_spec A sem.
+  Variable F : string -> list nat -> list A -> A.
+  Hypothesis Hpw : sem_pointwise_spec A sem F.
+  Variable Fcl : list nat -> V -> A -> A.
+  Hypothesis Hcl : sem_castlike_spec A sem Fcl.
+  Hypothesis Hcl_type : castlike_type_only A Fcl.
+  Hypothesis Hacc : sem_accepts_spec A sem.
+
+  Notation evalg := (eval V sem).
+  Notation stepg := (step V sem).
+  Notation refinesg := (refines V teq sem).
+
+  (* what the theorem needs from the world: SSA and TRUE annotations (property C08): declared dims hold at run time
+     under one binding of the symbolic dims, and values flagged by _is_scalar_const_value have one element *)
+  Record admissible (g : pgraph) (e : env V) : Prop := {
+    adm_ssa : ssa V (pg_nodes g) e;
+    adm_shape : exists sigma, forall ef x ds v, evalg (pg_nodes g) e = Some ef -> pg_shape g x = Some ds -> ef x = Some v ->
+                  Forall2 (dim_ok sigma) ds (shape v);
+    adm_scalar : forall ef x v, evalg (pg_nodes g) e = Some ef -> pg_scalar g x = true -> ef x = Some v -> all1 (shape v) = true }.
+
+  Section Action.
+    Variables (g : pgraph) (a : action) (T1 T2 : node) (e ef : env V) (xs : V).
+    Hypothesis Hadm : admissible g e.
+    Hypothesis Haf : action_facts g a T1 T2.
+    Hypothesis Hev : evalg (pg_nodes g) e = Some ef.
+    Hypothesis Hxs : ef (ac_src a) = Some xs.
+    Let S0 := shape xs.
+    Let Hnd : NoDup (defs (pg_nodes g)) := proj1 (adm_ssa _ _ Hadm).
+
+    Definition inD (x : name) : bool := existsb (Nat.eqb x) (dirty a).
+    Definition rel (x : name) (v w : V) : Prop :=
+      if inD x then flat_eq v w /\ shape w = S0
+      else if Nat.eqb x (ac_t2 a) then teq v w /\ shape w = S0 else teq v w.
+    Notation Inv := (rinv V (rho a) rel).
+
+    Lemma inD_In x : inD x = true <-> In x (dirty a).
+    Proof.
+      unfold inD. rewrite existsb_exists. split.
+      - intros (y & Hy & E). apply Nat.eqb_eq in E. now subst.
+      - intro H. exists x. split; auto. apply Nat.eqb_refl.
+    Qed.
+    Lemma inD_false x : ~ In x (dirty a) -> inD x = false.
+    Proof. intro H. destruct (inD x) eqn:E; auto. apply inD_In in E. contradiction. Qed.
+
+    Lemma rel_flat x v w : rel x v w -> flat_eq v w.
+    Proof.
+      unfold rel. destruct (inD x); [tauto|]. destruct (Nat.eqb x (ac_t2 a)); [intros [H _]|intro H]; now apply teq_flat_eq.
+    Qed.
+    Lemma rel_teq x v w : inD x = false -> rel x v w -> teq v w.
+    Proof. unfold rel. intros ->. destruct (Nat.eqb x (ac_t2 a)); tauto. Qed.
+    Lemma rel_shape x v w : In x (dirty a ++ [ac_t2 a]) -> rel x v w -> shape w = S0.
+    Proof.
+      unfold rel. intro Hin. destruct (inD x) eqn:E; [tauto|].
+      apply in_app_or in Hin as [Hin|[<-|[]]]; [apply inD_In in Hin; congruence|]. rewrite Nat.eqb_refl. tauto.
+    Qed.
+    Lemma rel_of_teq x v w : inD x = false -> x <> ac_t2 a -> teq v w -> rel x v w.
+    Proof. unfold rel. intros -> Hne H. destruct (Nat.eqb_spec x (ac_t2 a)); [contradiction | exact H]. Qed.
+
+    Lemma rel_list_teq xs0 vs ws : (forall x, In x xs0 -> inD x = false) -> rel_list V rel xs0 vs ws -> Forall2 teq vs ws.
+    Proof.
+      intros H Hr. induction Hr as [|x v w xr vr wr Hx _ IH]; constructor.
+      - apply (rel_teq x); auto. apply H. now left.
+      - apply IH. intros; apply H; now right.
+    Qed.
+    Lemma rel_list_flat xs0 vs ws : rel_list V rel xs0 vs ws -> Forall2 flat_eq vs ws.
+    Proof. induction 1; constructor; eauto using rel_flat. Qed.
+    Lemma rel_list_of_teq : forall xs0 vs ws, Forall2 teq vs ws -> length vs = length xs0 ->
+      (forall x, In x xs0 -> inD x = false /\ x <> ac_t2 a) -> rel_list V rel xs0 vs ws.
+    Proof.
+      induction xs0 as [|x xr IH]; intros vs ws H2 Hl Hx; destruct H2 as [|v w vr wr Hvw H2]; simpl in Hl; try discriminate; constructor.
+      - destruct (Hx x (or_introl eq_refl)). now apply rel_of_teq.
+      - apply IH; auto. intros; apply Hx; now right.
+    Qed.
+
+    Lemma inv_init : Inv e e.
+    Proof.
+      pose proof (proj2 (adm_ssa _ _ Hadm)) as Hfree. split; [|auto].
+      intros x v Hx.
+      assert (Hnd' : ~ In x (defs (pg_nodes g))) by (intro Hd; rewrite (Hfree _ Hd) in Hx; discriminate).
+      assert (H1 : x <> ac_t1 a).
+      { intros ->. apply Hnd'. unfold defs. apply in_flat_map. exists T1. split; [apply (af_T1_in _ _ _ _ Haf)|].
+        rewrite (af_T1_outs _ _ _ _ Haf). now left. }
+      assert (H2 : x <> ac_t2 a).
+      { intros ->. apply Hnd'. unfold defs. apply in_flat_map. exists T2. split; [apply (af_T2_in _ _ _ _ Haf)|].
+        rewrite (af_T2_outs _ _ _ _ Haf). now left. }
+      rewrite (rho_other a x H1 H2). exists v. split; auto. apply rel_of_teq; auto; [|apply teq_refl].
+      apply inD_false. intros [E|Hc]; [now symmetry in E|].
+      apply Hnd'. unfold chain_outs in Hc. apply in_map_iff in Hc as (c & Hc & Hcin).
+      destruct (chain_facts_in g _ _ c (af_chain _ _ _ _ Haf) Hcin) as (_ & y & _ & _ & Ho & _).
+      unfold defs. apply in_flat_map. exists c. split; [now apply (af_chain_in _ _ _ _ Haf)|].
+      unfold out_of in Hc. rewrite Ho in *. subst. now left.
+    Qed.
+
+    Lemma src_clean : inD (ac_src a) = false /\ ac_src a <> ac_t1 a /\ ac_src a <> ac_t2 a.
+    Proof.
+      split; [|split; [eapply src_ne_t1 | eapply src_ne_t2]; eauto].
+      apply inD_false. intro H. apply (src_not_dirty g a T1 T2 Haf). apply in_or_app. now left.
+    Qed.
+
+    (* ---- the two removed Reshape nodes *)
+    Lemma T1_step em em' e1 : (forall x v, em x = Some v -> ef x = Some v) -> em (ac_t1 a) = None ->
+      Inv em em' -> stepg em T1 = Some e1 -> Inv e1 em'.
+    Proof.
+      intros Hle Hfresh Hi Hs.
+      apply (rinv_dropped_step V sem (rho a) rel em em' T1 (ac_t1 a) e1 Hi Hs (af_T1_outs _ _ _ _ Haf) Hfresh).
+      intros vs v Hl Hsem. rewrite (af_T1_op _ _ _ _ Haf) in Hsem.
+      destruct (Hreshape _ _ _ Hsem) as (x & rest & y & -> & Hy & Hfl). injection Hy as <-.
+      destruct (af_T1_ins _ _ _ _ Haf) as [r Hins]. unfold n_uses in Hl. rewrite Hins in Hl. simpl in Hl.
+      destruct (em (ac_src a)) as [x0|] eqn:Ex; [|discriminate].
+      destruct (lookups V em (r ++ n_caps T1)); [|discriminate]. injection Hl as <- _.
+      destruct Hi as [Hi1 _]. destruct (Hi1 _ _ Ex) as (w & Ew & Hr).
+      destruct src_clean as (Hc1 & Hc2 & Hc3). rewrite (rho_other a _ Hc2 Hc3) in Ew.
+      pose proof (rel_teq _ _ _ Hc1 Hr) as Hxw.
+      exists w. rewrite (rho_t1 g a T1 T2 Haf). split; auto.
+      unfold rel. rewrite (proj2 (inD_In _) (t1_dirty a)). split.
+      - eapply flat_eq_trans; [exact Hfl | now apply teq_flat_eq].
+      - rewrite <- (proj1 Hxw). pose proof (Hle _ _ Ex) as E. rewrite Hxs in E. injection E as <-. reflexivity.
+    Qed.
+
+    Lemma T2_step em em' e1 : (forall x v, em x = Some v -> ef x = Some v) -> (forall x v, e1 x = Some v -> ef x = Some v) ->
+      em (ac_t2 a) = None -> Inv em em' -> stepg em T2 = Some e1 -> Inv e1 em'.
+    Proof.
+      intros Hle Hle1 Hfresh Hi Hs.
+      apply (rinv_dropped_step V sem (rho a) rel em em' T2 (ac_t2 a) e1 Hi Hs (af_T2_outs _ _ _ _ Haf) Hfresh).
+      intros vs v Hl Hsem.
+      assert (He1 : e1 (ac_t2 a) = Some v).
+      { unfold step in Hs. rewrite Hl, Hsem, (af_T2_outs _ _ _ _ Haf) in Hs. simpl in Hs. injection Hs as <-.
+        unfold upd. now rewrite Nat.eqb_refl. }
+      rewrite (af_T2_op _ _ _ _ Haf) in Hsem.
+      destruct (Hreshape _ _ _ Hsem) as (x & rest & y & -> & Hy & Hfl). injection Hy as <-.
+      destruct (af_T2_ins _ _ _ _ Haf) as [r Hins]. unfold n_uses in Hl. rewrite Hins in Hl. cbn [app lookups] in Hl.
+      destruct (em (last (dirty a) 0)) as [x0|] eqn:Ex; [|discriminate].
+      destruct (lookups V em (r ++ n_caps T2)); [|discriminate]. injection Hl as <- _.
+      destruct Hi as [Hi1 _]. destruct (Hi1 _ _ Ex) as (w & Ew & Hr).
+      rewrite (last_dirty g a T1 T2 Haf) in Ew.
+      pose proof (last_dirty_in a) as Hin.
+      pose proof (rel_flat _ _ _ Hr) as Hxw.
+      pose proof (rel_shape _ _ _ (in_or_app _ _ _ (or_introl Hin)) Hr) as Hsw.
+      exists w. rewrite (rho_t2 a). split; auto.
+      unfold rel. rewrite (inD_false _ (t2_not_dirty g a T1 T2 Haf)), Nat.eqb_refl. split; auto.
+      apply flat_eq_shape_teq; [eapply flat_eq_trans; eauto|]. rewrite Hsw. unfold S0.
+      (* declared shapes of src and dst are compatible and true *)
+      pose proof (af_compat _ _ _ _ Haf) as Hc. unfold shapes_compatible in Hc.
+      destruct (pg_shape g (ac_src a)) as [ds1|] eqn:E1; [|discriminate].
+      destruct (pg_shape g (ac_t2 a)) as [ds2|] eqn:E2; [|discriminate].
+      destruct (adm_shape _ _ Hadm) as [sigma Hsh].
+      symmetry. eapply (compat_shapes sigma ds1 ds2); eauto.
+    Qed.
+
+    (* ---- a kept node outside the chain *)
+    Lemma other_step n em em' e1 : In n (pg_nodes g) -> keep a n = true -> in_members (chain_outs a) n = false ->
+      (forall y, In y (n_outs n) -> em y = None) -> NoDup (n_outs n) ->
+      Inv em em' -> stepg em n = Some e1 -> exists e1', stepg em' (subst_map (rho a) n) = Some e1' /\ Inv e1 e1'.
+    Proof.
+      intros Hn Hk Hnm Hfresh Hndo Hi Hs.
+      assert (Houts : forall y, In y (n_outs n) -> inD y = false /\ y <> ac_t2 a /\ y <> ac_t1 a).
+      { intros y Hy. unfold keep in Hk. apply andb_prop in Hk as [Hk1 Hk2]. apply negb_true_iff in Hk1, Hk2.
+        assert (H1 : y <> ac_t1 a).
+        { intros ->. rewrite (T1_unique g a T1 T2 Hnd Haf n Hn Hy) in Hk1.
+          rewrite (node_is_true _ _ (af_T1_outs _ _ _ _ Haf)) in Hk1. discriminate. }
+        assert (H2 : y <> ac_t2 a).
+        { intros ->. rewrite (T2_unique g a T1 T2 Hnd Haf n Hn Hy) in Hk2.
+          rewrite (node_is_true _ _ (af_T2_outs _ _ _ _ Haf)) in Hk2. discriminate. }
+        split; [|split]; auto. apply inD_false. intros [E|Hc]; [now symmetry in E|].
+        unfold chain_outs in Hc. apply in_map_iff in Hc as (c & Hc & Hcin).
+        destruct (chain_facts_in g _ _ c (af_chain _ _ _ _ Haf) Hcin) as (_ & y' & _ & _ & Ho & _).
+        assert (y' = y) by (unfold out_of in Hc; rewrite Ho in Hc; auto). subst y'.
+        assert (n = c).
+        { eapply (defs_unique (pg_nodes g)); eauto; [now apply (af_chain_in _ _ _ _ Haf) | rewrite Ho; now left]. }
+        subst c. destruct (chain_nonempty_member g a T1 T2 Haf n Hcin). congruence. }
+      apply (rinv_kept_step V teq sem (rho a) rel em em' n e1 Hi Hs); auto.
+      - intros y Hy. destruct (Houts y Hy) as (_ & H2 & H1). now apply rho_other.
+      - intros vs vs' o Hl Hl' Hrl Hsem Hlen.
+        assert (Hteq : Forall2 teq vs vs').
+        { apply (rel_list_teq (n_uses n)); auto. intros x Hx. apply inD_false. intro Hd.
+          exact (kept_clean g a T1 T2 Haf n x Hn Hk Hnm Hd Hx). }
+        destruct (sem_proper _ _ _ _ _ Hteq Hsem) as (o' & Hs' & Ho). exists o'. split; auto.
+        apply rel_list_of_teq; auto. intros y Hy. destruct (Houts y Hy) as (H1 & H2 & _). auto.
+    Qed.
+
+    (* ---- graph outputs *)
+    Lemma outs_related ef' o : Inv ef ef' -> lookups V ef (pg_outputs g) = Some o ->
+      exists o', lookups V ef' (map (rho a) (pg_outputs g)) = Some o' /\ Forall2 teq o o'.
+    Proof.
+      intros Hi Hl. destruct (rinv_lookups V (rho a) rel _ _ _ _ Hi Hl) as (o' & Hl' & Hr).
+      exists o'. split; auto. apply (rel_list_teq (pg_outputs g)); auto.
+      intros x Hx. apply inD_false. intro Hd.
+      destruct (observed_false _ _ (af_unobs _ _ _ _ Haf x Hd)) as [H _]. contradiction.
+    Qed.
+
+    (* ---- a member of the chain: computes the same flattening in the other layout *)
+    Lemma side_operands (E : env V) (r : name -> name) prev x :
+      E (r prev) = Some x -> forall ins pos vs, side_ok g false prev pos ins = true ->
+      (forall u w, In u ins -> pg_scalar g u = true -> E (r u) = Some w -> all1 (shape w) = true) ->
+      lookups V E (map r ins) = Some vs -> Forall (fun v => teq v x \/ all1 (shape v) = true) vs.
+    Proof.
+      intros Hp. induction ins as [|u rest IH]; intros pos vs Hs Hsc Hl.
+      - simpl in Hl. injection Hl as <-. constructor.
+      - cbn [map lookups] in Hl. destruct (E (r u)) as [w|] eqn:Eu; [|discriminate].
+        destruct (lookups V E (map r rest)) as [ws|] eqn:El; [|discriminate]. injection Hl as <-.
+        cbn [side_ok andb] in Hs. apply andb_prop in Hs as [H1 H2]. constructor.
+        + rewrite orb_false_r in H1. apply orb_prop in H1 as [H1|H1].
+          * apply Nat.eqb_eq in H1. subst u. rewrite Hp in Eu. injection Eu as <-. left. apply teq_refl.
+          * right. apply (Hsc u w); auto. now left.
+        + apply (IH (S pos)); auto. intros u0 w0 Hu0. apply Hsc. now right.
+    Qed.
+
+    Lemma rank_ok c u v w : side_ranks_ok g a = true -> In c (ac_chain a) -> String.eqb (n_op c) "CastLike" = false ->
+      In u (n_ins c) -> ef u = Some v -> rel u v w -> length (shape w) <= length S0.
+    Proof.
+      intros Hrk Hc Hcl0 Hu Hv Hr. unfold side_ranks_ok in Hrk. rewrite forallb_forall in Hrk. specialize (Hrk c Hc).
+      rewrite Hcl0 in Hrk. cbn [orb] in Hrk. rewrite forallb_forall in Hrk. specialize (Hrk u Hu).
+      apply orb_prop in Hrk as [Hd|Hd].
+      - apply existsb_exists in Hd as (z & Hz & E). apply Nat.eqb_eq in E. subst z.
+        rewrite (rel_shape _ _ _ Hz Hr). auto.
+      - destruct (inD u) eqn:EDu.
+        + apply inD_In in EDu. rewrite (rel_shape u v w (in_or_app _ _ _ (or_introl EDu)) Hr). auto.
+        + pose proof (rel_teq _ _ _ EDu Hr) as [Hs _]. rewrite <- Hs.
+          unfold decl_rank_le in Hd. destruct (pg_shape g u) as [du|] eqn:E1; [|discriminate].
+          destruct (pg_shape g (ac_src a)) as [ds|] eqn:E2; [|discriminate]. apply Nat.leb_le in Hd.
+          destruct (adm_shape _ _ Hadm) as [sigma Hsh].
+          rewrite <- (Forall2_length_eq _ _ _ (Hsh ef u du v Hev E1 Hv)).
+          unfold S0. rewrite <- (Forall2_length_eq _ _ _ (Hsh ef (ac_src a) ds xs Hev E2 Hxs)). exact Hd.
+    Qed.
+
+    Lemma str_in_app_l s l l' : str_in s l = true -> str_in s (l ++ l') = true.
+    Proof. unfold str_in. rewrite existsb_app. intros ->. reflexivity. Qed.
+
+    Lemma chain_step c em em' e1 : side_ranks_ok g a = true -> In c (ac_chain a) ->
+      (forall x v, em x = Some v -> ef x = Some v) ->
+      (forall y, In y (n_outs c) -> em y = None) -> NoDup (n_outs c) ->
+      Inv em em' -> stepg em c = Some e1 -> exists e1', stepg em' (subst_map (rho a) c) = Some e1' /\ Inv e1 e1'.
+    Proof.
+      intros Hrk Hc Hle Hfresh Hndo Hi Hs.
+      destruct (chain_facts_in g _ _ c (af_chain _ _ _ _ Haf) Hc) as (p & y & rest & Hp & Ho & Hy & Hcaps & Hins & Hside).
+      assert (HpD : In p (dirty a)) by exact Hp.
+      apply (rinv_kept_step V teq sem (rho a) rel em em' c e1 Hi Hs); auto.
+      { intros y0 Hy0. rewrite Ho in Hy0. destruct Hy0 as [<-|[]]. now apply (rho_chain_out g a T1 T2 Haf). }
+      intros vs vs' o Hl Hl' Hrl Hsem Hlen.
+      unfold n_uses in Hl, Hl', Hrl. rewrite Hcaps, app_nil_r in Hl, Hl', Hrl.
+      pose proof (rel_list_flat _ _ _ Hrl) as Hflat.
+      assert (Hse : Forall2 same_elems vs vs') by (eapply Forall2_imp; [|exact Hflat]; intros; now apply flat_eq_same_elems).
+      pose proof Hl as Hl0. pose proof Hl' as Hl0'. rewrite Hins in Hl0, Hl0'. cbn [map] in Hl0'.
+      destruct (lookups_cons_inv V _ _ _ _ Hl0) as (x & vr & Ex & _ & Evs).
+      destruct (lookups_cons_inv V _ _ _ _ Hl0') as (x' & vr' & Ex' & _ & Evs').
+      destruct Hi as [Hi1 Hi2].
+      assert (Hrp : rel p x x') by (destruct (Hi1 _ _ Ex) as (w & Ew & Hr); rewrite Ex' in Ew; injection Ew as <-; exact Hr).
+      pose proof (rel_shape p x x' (in_or_app _ _ _ (or_introl HpD)) Hrp) as Hsx'.
+      assert (HyD : inD y = true) by (apply inD_In; now right).
+      assert (Hrel_in : forall u, In u (n_ins c) -> exists v w, em u = Some v /\ em' (rho a u) = Some w /\ rel u v w).
+      { intros u Hu. destruct (em u) as [v|] eqn:Eu.
+        - destruct (Hi1 _ _ Eu) as (w & Ew & Hr). eauto.
+        - exfalso. exact (lookups_defined V em _ _ u Hl Hu Eu). }
+      destruct (allowed_in_pw _ (proj2 (af_chain_in _ _ _ _ Haf c Hc))) as [Hop|Hop].
+      - (* CastLike *)
+        rewrite Hop in *. destruct (Hcl _ _ _ Hsem) as (x0 & t & yv & Evs0 & -> & Hyv).
+        rewrite Evs0 in Evs. injection Evs as -> <-. subst vs.
+        assert (Hacc' : sem "CastLike" (n_attrs c) vs' <> None).
+        { apply (Hacc "CastLike"%string (n_attrs c) [x; t] vs'); [reflexivity | congruence | exact Hse | now left]. }
+        destruct (sem "CastLike" (n_attrs c) vs') as [o'|] eqn:Es'; [|contradiction].
+        destruct (Hcl _ _ _ Es') as (x1 & t' & yv' & Evs1 & -> & Hyv').
+        rewrite Evs1 in Evs'. injection Evs' as -> <-. subst vs'.
+        exists [yv']. split; auto. rewrite Ho. constructor; [|constructor].
+        unfold rel. rewrite HyD.
+        inversion Hflat as [|? ? ? ? Hfx Hft]; subst. inversion Hft as [|? ? ? ? Hft1 _]; subst. split.
+        + eapply flat_eq_trans; [apply teq_flat_eq; exact Hyv|].
+          eapply flat_eq_trans; [|apply flat_eq_sym; apply teq_flat_eq; exact Hyv'].
+          apply tmap_flat; auto. intro a0. apply Hcl_type. now apply flat_eq_same_elems.
+        + rewrite (proj1 Hyv'). exact Hsx'.
+      - (* pointwise with scalar side operands *)
+        assert (Hcl0 : String.eqb (n_op c) "CastLike" = false).
+        { destruct (String.eqb_spec (n_op c) "CastLike") as [E|]; auto. rewrite E in Hop. vm_compute in Hop. discriminate. }
+        rewrite Hcl0 in Hside.
+        assert (Hok : operands_ok vs).
+        { rewrite Evs. unfold operands_ok. rewrite <- Evs.
+          apply (side_operands em (fun u => u) p x Ex (n_ins c) 0 vs Hside).
+          - intros u w _ Hsc Eu. exact (adm_scalar _ _ Hadm ef u w Hev Hsc (Hle _ _ Eu)).
+          - now rewrite map_id. }
+        assert (Hok' : operands_ok vs').
+        { rewrite Evs'. unfold operands_ok. rewrite <- Evs'.
+          apply (side_operands em' (rho a) p x' Ex' (n_ins c) 0 vs' Hside); auto.
+          intros u w Hu Hsc Eu. destruct (Hrel_in u Hu) as (v & w0 & Ev & Ew0 & Hr). rewrite Eu in Ew0. injection Ew0 as <-.
+          pose proof (adm_scalar _ _ Hadm ef u v Hev Hsc (Hle _ _ Ev)) as H1.
+          exact (proj1 (flat_eq_scalar _ _ H1 (rel_flat _ _ _ Hr))). }
+        destruct (Hpw _ _ _ _ Hop Hsem Hok) as (yv & -> & Hyv).
+        assert (Hacc' : sem (n_op c) (n_attrs c) vs' <> None).
+        { apply (Hacc (n_op c) (n_attrs c) vs vs'); [now apply str_in_app_l | congruence | exact Hse | now right]. }
+        destruct (sem (n_op c) (n_attrs c) vs') as [o'|] eqn:Es'; [|contradiction].
+        destruct (Hpw _ _ _ _ Hop Es' Hok') as (yv' & -> & Hyv').
+        exists [yv']. split; auto. rewrite Ho. constructor; [|constructor].
+        unfold rel. rewrite HyD. split.
+        + eapply flat_eq_trans; [apply teq_flat_eq; exact Hyv|].
+          eapply flat_eq_trans; [|apply flat_eq_sym; apply teq_flat_eq; exact Hyv'].
+          apply pwn_flat; auto. rewrite Evs. discriminate.
+        + rewrite (proj1 Hyv'), Evs'. rewrite pwn_shape; [exact Hsx'|]. rewrite <- Evs'.
+          apply (lookups_Forall V _ em' (map (rho a) (n_ins c)) vs' Hl').
+          intros u' w Hu' Ew. apply in_map_iff in Hu' as (u & <- & Hu).
+          destruct (Hrel_in u Hu) as (v & w0 & Ev & Ew0 & Hr). rewrite Ew in Ew0. injection Ew0 as <-.
+          rewrite Hsx'. exact (rank_ok c u v w Hrk Hc Hcl0 Hu (Hle _ _ Ev) Hr).
+    Qed.
+
+    (* ---- the action as a whole, for this run *)
+    Lemma action_run : side_ranks_ok g a = true ->
+      refinesg (pg_graph g) (mkGraph (map (subst_map (rho a)) (filter (keep a) (pg_nodes g))) (map (rho a) (pg_outputs g))) e.
+    Proof.
+      intro Hrk. pose proof (adm_ssa _ _ Hadm) as Hssa.
+      apply (sim_refines V teq sem Inv (keep a) (subst_map (rho a)) (pg_nodes g) (pg_outputs g) (map (rho a) (pg_outputs g)) e Hssa inv_init).
+      intros ef0 Hev0. rewrite Hev in Hev0. injection Hev0 as <-. split.
+      - intros pre n post em em' e1 Hsplit Hpre Hle Hi Hs Hle1.
+        destruct (fresh_at V sem _ _ _ _ _ _ Hssa Hsplit Hpre) as [Hfresh Hndo].
+        assert (Hn : In n (pg_nodes g)) by (rewrite Hsplit; apply in_or_app; right; now left).
+        destruct (keep a n) eqn:Hk.
+        + destruct (in_members (chain_outs a) n) eqn:Hm.
+          * apply (chain_step n em em' e1); auto. exact (chain_member g a T1 T2 Hnd Haf n Hn Hm).
+          * apply (other_step n em em' e1); auto.
+        + unfold keep in Hk. apply andb_false_iff in Hk as [Hk|Hk]; apply negb_false_iff in Hk; apply node_is_outs in Hk.
+          * assert (n = T1) by (apply (T1_unique g a T1 T2 Hnd Haf n Hn); rewrite Hk; now left). subst n.
+            apply (T1_step em em' e1); auto. apply Hfresh. rewrite Hk. now left.
+          * assert (n = T2) by (apply (T2_unique g a T1 T2 Hnd Haf n Hn); rewrite Hk; now left). subst n.
+            apply (T2_step em em' e1); auto. apply Hfresh. rewrite Hk. now left.
+      - intros ef' o Hi Hl. now apply outs_related.
+    Qed.
+  End Action.
+
+  Lemma first_action_in g : forall ns a, (forall n, In n ns -> In n (pg_nodes g)) -> first_action g ns = Some a ->
+    exists T1 T2, action_facts g a T1 T2.
+  Proof.
+    induction ns as [|n r IH]; simpl; intros a Hsub H; [discriminate|]. destruct (decide g n) as [b|] eqn:E.
+    - injection H as <-. destruct (decide_facts g n b (Hsub n (or_introl eq_refl)) E) as [T1 HT]. eauto.
+    - apply IH; auto.
+  Qed.
+
+  (* ONE rewrite of the pass is sound for every admissible annotated graph, PROVIDED no side operand outranks src *)
+  Theorem reshape_pair_action_sound g a T1 T2 e :
+    admissible g e -> action_facts g a T1 T2 -> side_ranks_ok g a = true ->
+    refinesg (pg_graph g) (pg_graph (apply_action g a)) e.
+  Proof.
+    intros Hadm Haf Hrk o Hrun. pose proof (adm_ssa _ _ Hadm) as Hssa.
+    rewrite (apply_action_graph g a T1 T2 (proj1 Hssa) Haf).
+    assert (Hev : exists ef, evalg (pg_nodes g) e = Some ef).
+    { unfold run in Hrun. simpl in Hrun. destruct (evalg (pg_nodes g) e); [eauto|discriminate]. }
+    destruct Hev as [ef Hev].
+    destruct (eval_consistent V sem _ _ _ T1 Hssa Hev (af_T1_in _ _ _ _ Haf)) as (vs & oo & Hl & _ & _).
+    destruct (af_T1_ins _ _ _ _ Haf) as [r Hins]. unfold n_uses in Hl. rewrite Hins in Hl. simpl in Hl.
+    destruct (ef (ac_src a)) as [xs|] eqn:Hxs; [|discriminate].
+    exact (action_run g a T1 T2 e ef xs Hadm Haf Hev Hxs Hrk o Hrun).
+  Qed.
+
+  Theorem reshape_pair_step_sound g g' e :
+    admissible g e -> (forall a, first_action g (pg_nodes g) = Some a -> side_ranks_ok g a = true) ->
+    reshape_pair_step g = Some g' -> refinesg (pg_graph g) (pg_graph g') e.
+  Proof.
+    intros Hadm Hrk Hstep. unfold reshape_pair_step in Hstep.
+    destruct (first_action g (pg_nodes g)) as [a|] eqn:Efa; [|discriminate]. injection Hstep as <-.
+    destruct (first_action_in g _ a (fun n H => H) Efa) as (T1 & T2 & Haf).
+    eapply reshape_pair_action_sound; eauto.
+  Qed.
+
+  (* every graph the while-changed loop passes through is admissible and its rewrite passes the rank check *)
+  Fixpoint admissible_along (fuel : nat) (g : pgraph) (e : env V) : Prop :=
+    admissible g e /\
+    match fuel with
+    | O => True
+    | S k => match first_action g (pg_nodes g) with
+             | Some a => side_ranks_ok g a = true /\ admissible_along k (apply_action g a) e
+             | None => True
+             end
+    end.
+
+  Theorem reshape_pair_pass_sound : forall fuel g e, admissible_along fuel g e ->
+    refinesg (pg_graph g) (pg_graph (reshape_pair_pass fuel g)) e.
+  Proof.
+    induction fuel as [|k IH]; simpl; intros g e [Hadm Hrest].
+    - apply (refines_refl V teq (@teq_refl A) sem).
+    - unfold reshape_pair_step. destruct (first_action g (pg_nodes g)) as [a|] eqn:Efa; simpl.
+      + destruct Hrest as [Hrk Hrest]. eapply (refines_trans V teq (@teq_trans A) sem).
+        * destruct (first_action_in g _ a (fun n H => H) Efa) as (T1 & T2 & Haf).
+          eapply reshape_pair_action_sound; eauto.
+        * apply IH. exact Hrest.
+      + apply (refines_refl V teq (@teq_refl A) sem).
+  Qed.
+End Sound.
+
+(* ---------------------------------------------------------------- non-vacuity and the rank defect *)
+Definition ex_shape (n : name) : option (list dim) :=
+  match n with 1 => Some [DInt 6] | 3 => Some [DInt 2; DInt 3] | 4 => Some [DInt 2; DInt 3] | 6 => Some [DInt 6]
+             | 7 => Some [] | 8 => Some [DInt 1; DInt 1] | _ => None end.
+Definition ex_scalar (n : name) : bool := match n with 7 => true | 8 => true | _ => false end.
+(* x:[6] -Reshape-> [2,3] -Max(., c)-> -Reshape-> [6] -Relu-> out *)
+Definition ex_graph (c : name) : pgraph :=
+  mkPG [mkNode "Reshape" [] [1; 2] [] [3]; mkNode "Max" [] [3; c] [] [4]; mkNode "Reshape" [] [4; 5] [] [6]; mkNode "Relu" [] [6] [] [9]]
+       [9] ex_shape ex_scalar.
+
+Example reshape_pair_folded :
+  pg_nodes (reshape_pair_pass 5 (ex_graph 7)) = [mkNode "Max" [] [1; 7] [] [4]; mkNode "Relu" [] [4] [] [9]]
+  /\ pg_shape (reshape_pair_pass 5 (ex_graph 7)) 4 = Some [DInt 6]
+  /\ option_map (side_ranks_ok (ex_graph 7)) (first_action (ex_graph 7) (pg_nodes (ex_graph 7))) = Some true.
+Proof. vm_compute. auto. Qed.
+
+(* the defect of the real pass, reproduced by the faithful model: with the one-element constant c:[1,1] the pass folds
+   as well, and the value that replaces the [6]-shaped Reshape output now has shape [1,6] (the model's own refreshed
+   annotation says so; onnxruntime agrees: .scratch/c02p/defect_reshape_pair_rank.py).  The rank check fails here. *)
+Example reshape_pair_rank_defect :
+  pg_nodes (reshape_pair_pass 5 (ex_graph 8)) = [mkNode "Max" [] [1; 8] [] [4]; mkNode "Relu" [] [4] [] [9]]
+  /\ pg_shape (ex_graph 8) 6 = Some [DInt 6]
+  /\ pg_shape (reshape_pair_pass 5 (ex_graph 8)) 4 = Some [DInt 1; DInt 6]
+  /\ option_map (side_ranks_ok (ex_graph 8)) (first_action (ex_graph 8) (pg_nodes (ex_graph 8))) = Some false.
+Proof. vm_compute. auto. Qed.
+
+Example observed_intermediate_kept :
+  List.length (pg_nodes (reshape_pair_pass 5 (mkPG (pg_nodes (ex_graph 7)) [9; 4] ex_shape ex_scalar))) = 4.
+Proof. vm_compute. reflexivity. Qed.
